@@ -354,11 +354,48 @@ func genVE(g *genCtx) {
 		}
 		return n
 	}
+	// a deep chain (3-8 child names) that ends in a node with several message-carrying children: long key paths with
+	// siblings below them
+	deepTree := func(r *rng) *vnode {
+		fan := &vnode{kind: 3}
+		fan.errs, fan.errsK = genMap(r, true)
+		fan.warns, fan.warnsK = genMap(r, true)
+		fan.kids = []vkid{}
+		used := map[string]bool{}
+		for i, iN := 0, r.rangeIn(2, 4); i < iN; i++ {
+			name := kidsA[r.intn(len(kidsA))]
+			if used[name] {
+				continue
+			}
+			used[name] = true
+			leaf := genNode(r, 0)
+			fan.kids = append(fan.kids, vkid{name, leaf})
+		}
+		cur := fan
+		for d, dN := 0, r.rangeIn(3, 8); d < dN; d++ {
+			parent := &vnode{kind: 2}
+			parent.errs, parent.errsK = genMap(r, true)
+			parent.kids = []vkid{{kidsA[r.intn(len(kidsA))], cur}}
+			if r.chance(1, 3) {
+				// a sibling next to the chain
+				sib := kidsA[r.intn(len(kidsA))]
+				if sib != parent.kids[0].name {
+					parent.kids = append(parent.kids, vkid{sib, genNode(r, 1)})
+				}
+			}
+			cur = parent
+		}
+		return cur
+	}
 	reads := []string{"flatE", "flatW", "error", "errMap", "warnMap", "kids"}
 	for t := 0; t < nTrees; t++ {
 		g.newCase("kind=reads")
 		r := g.rng
-		g.op("tree %s", genNode(r, r.rangeIn(0, maxDepth)))
+		if t%5 == 4 {
+			g.op("tree %s", deepTree(r))
+		} else {
+			g.op("tree %s", genNode(r, r.rangeIn(0, maxDepth)))
+		}
 		for i, iN := 0, r.rangeIn(1, 6); i < iN; i++ {
 			g.op("read %s", reads[r.intn(len(reads))])
 		}
